@@ -3,6 +3,7 @@ package props
 import (
 	"fmt"
 	"sort"
+	"strings"
 
 	"github.com/golang/protobuf/proto"
 	"github.com/openacid/slim/index"
@@ -219,6 +220,46 @@ func checkC17(c *Case, s *Stats) error {
 			return viol("size-bound", "filter mode spelled with explicit false flags, after a Complete build that shared the flag variables, gives %d bytes; default options give %d bytes (%d keys)", hsize, size, n)
 		}
 		s.class("shared_option_variables_history")
+	}
+	if c.Scrib == 2 {
+		// the object that reports the size held (and serialised) a much larger,
+		// key-length dependent index before: the size must be that of ITS CURRENT content
+		var hsize int
+		err := guard("size of a filter-mode index loaded into a used instance", func() error {
+			big := withPrefix(strings.Repeat("p", 2000), []string{"a", "b", "c", "d"})
+			other, e := trie.NewSlimTrie(nil, big, nil, trie.Opt{Complete: trie.Bool(true)})
+			if e != nil {
+				return viol("build", "NewSlimTrie rejected valid input: %v", e)
+			}
+			if _, e := other.Marshal(); e != nil {
+				return viol("marshal", "Marshal failed: %v", e)
+			}
+			_ = proto.Size(other)
+			st, e := trie.NewSlimTrie(nil, keys, nil)
+			if e != nil {
+				return viol("build", "NewSlimTrie rejected valid input: %v", e)
+			}
+			b, e := st.Marshal()
+			if e != nil {
+				return viol("marshal", "Marshal failed: %v", e)
+			}
+			if e := other.Unmarshal(b); e != nil {
+				return viol("unmarshal", "Unmarshal of own bytes failed: %v", e)
+			}
+			b2, e := other.Marshal()
+			if e != nil {
+				return viol("marshal", "Marshal failed: %v", e)
+			}
+			hsize = len(b2)
+			return nil
+		})
+		if err != nil {
+			return err
+		}
+		if hsize != size {
+			return viol("size-bound", "a %d-key filter-mode index loaded into an instance that held a larger index serialises to %d bytes; the same index serialises to %d bytes from a fresh object", n, hsize, size)
+		}
+		s.class("reload_into_used_instance_history")
 	}
 	maxP := 0
 	if len(c.Prefix) >= 2 && n > 0 {
